@@ -402,12 +402,14 @@ def check(tier, seed, replay=None):
         cov['server_cases'] = sum(1 for r in rs if r['cfg'].get('server'))
 
     return core.generic_check(
-        PROP, tier, seed, [part], TRUSTED, ASSUME,
+        PROP, tier, seed, [part, __import__('harness.scen_adapters', fromlist=['part']).part(16, 150)],
+        TRUSTED + [__import__('harness.scen_adapters', fromlist=['ADAPTERS_TRUSTED']).ADAPTERS_TRUSTED], ASSUME,
         rule='random tables (0-12 inputs, source failure, preprocessor rejections, worker failures, a submitting function that raises for one element (fifo_stream / async_fifo_stream only), return_x, return_exceptions, stop '
              'position, concurrency 1-3, per-call durations 0-10 ms) run through fifo_stream, Parmapper, ParmapperAsync, async_fifo_stream, '
              'AsyncParmapperAsync and AsyncParmapper, plus sampled Server.stream/call vs AsyncServer.stream/call over a ThreadServlet; all '
              'variants must agree with each other (oracle) and with the sequential reference evaluated in Coq. non-trivial = >= 3 inputs and '
-             '(a failure or at least two different durations); distinct = distinct case',
+             '(a failure or at least two different durations); distinct = distinct case. The async stages outside the statement\'s list '
+             '(AsyncBuffer, SyncIter, AsyncIter) are compared with the model of their sync counterpart Buffer (adapters part)',
         replay=replay, post=post)
 
 
